@@ -304,7 +304,7 @@ def gen_x(rng, kid, p1, kind, p2=0.0):
 
 def run_kernel_enclosure(ctx, pp, torch):
     rng = ctx.rng
-    ntens = ctx.scale(4, 60)
+    ntens = ctx.scale(3, 60)
     kinds = ['zero', 'tiny', 'thr-', 'thr+', 'one', 'one', 'large']
     cases, meta = [], []
     for kid in range(7):
@@ -357,7 +357,7 @@ def run_kernel_enclosure(ctx, pp, torch):
                     comps.append((3, g2, t2))
                 cases.append(dict(idx=i, expr='kernel_l %d %s %s %s' % (kid, rlit(p1), rlit(p2), rlit(x)), comps=comps))
     def coq():
-        return run_enclosure('C09', 'Model.Kernel', cases, prec=200, per_file=max(6, -(-len(cases) // max(1, NCPU // 2))), timeout_goal=30, tag='kenc')
+        return run_enclosure('C09', 'Model.Kernel', cases, prec=200, per_file=min(40, max(6, -(-len(cases) // max(1, NCPU // 2)))), timeout_goal=30, tag='kenc')
 
     def done(r):
         collect(ctx, r, cases, meta, 'kernel-enclosure')
@@ -381,25 +381,26 @@ def collect(ctx, r, cases, meta, family):
 # ------------------------------------------------------------------ (C) correctors
 ENC_SHARED = r"""From Coq Require Import Lra.
 (* decide the model's comparisons one at a time, each on a goal that contains only that comparison
-   (inputs are let-bound, the tolerance conjunction is folded), then bound every component *)
+   (inputs are let-bound, the tolerance conjunction is folded), then bound every component.
+   Equalities first: g1 = 0 removes the branch containing 2*x*g2/g1 before anything in it is examined *)
 Ltac decide_lazy prec :=
   repeat (match goal with
-  | |- context [Rlt_dec ?a ?b] =>
-      tryif (first [has_dec a | has_dec b]) then fail else
-      (let H := fresh "Hb" in destruct (Rlt_dec a b) as [H|H];
-       [ try (exfalso; clear - H; revert H; model_cbv; apply Rle_not_lt; interval with (i_prec prec))
-       | try (exfalso; clear - H; apply H; model_cbv; interval with (i_prec prec)) ])
-  | |- context [Rle_dec ?a ?b] =>
-      tryif (first [has_dec a | has_dec b]) then fail else
-      (let H := fresh "Hb" in destruct (Rle_dec a b) as [H|H];
-       [ try (exfalso; clear - H; revert H; model_cbv; apply Rlt_not_le; interval with (i_prec prec))
-       | try (exfalso; clear - H; apply H; model_cbv; interval with (i_prec prec)) ])
   | |- context [Req_EM_T ?a ?b] =>
       tryif (first [has_dec a | has_dec b]) then fail else
       (let H := fresh "Hb" in destruct (Req_EM_T a b) as [H|H];
        [ try (exfalso; clear - H; revert H; model_cbv; apply Rlt_not_eq; interval with (i_prec prec));
          try (exfalso; clear - H; revert H; model_cbv; apply Rgt_not_eq; interval with (i_prec prec))
        | try (exfalso; clear - H; apply H; model_cbv; lra) ])
+  | |- context [Rle_dec ?a ?b] =>
+      tryif (first [has_dec a | has_dec b]) then fail else
+      (let H := fresh "Hb" in destruct (Rle_dec a b) as [H|H];
+       [ try (exfalso; clear - H; revert H; model_cbv; apply Rlt_not_le; interval with (i_prec prec))
+       | try (exfalso; clear - H; apply H; model_cbv; interval with (i_prec prec)) ])
+  | |- context [Rlt_dec ?a ?b] =>
+      tryif (first [has_dec a | has_dec b]) then fail else
+      (let H := fresh "Hb" in destruct (Rlt_dec a b) as [H|H];
+       [ try (exfalso; clear - H; revert H; model_cbv; apply Rle_not_lt; interval with (i_prec prec))
+       | try (exfalso; clear - H; apply H; model_cbv; interval with (i_prec prec)) ])
   end; cbv iota beta).
 Ltac enclose_shared prec :=
   let Pf := fresh "Pf" in intros;
@@ -487,6 +488,9 @@ def kernel_spec(rng, which):
     """(label, kind for true_rho, p1, p2, graph) - graph = False: rho' is a constant of the autograd graph"""
     if which in USER:
         return which, which, 0.0, 0.0, which != 'Id'
+    if which == 'Tolerant45':                       # a/|b| = 45, inside the property's range a/|b| <= 50
+        a = float(2.0 ** rng.randint(2, 5))
+        return 'Tolerant', 5, a, -a / 45, True
     kid = KNAMES.index(which)
     p1, p2 = gen_params(rng, kid)
     if kid != 5:
@@ -527,7 +531,7 @@ def grads_of(pp, torch, spec, Rt):
         return xs, g1, None
 
 
-def law_check(spec, cname, Rb, Jb, out, fast_out=None):
+def law_check(spec, cname, Rb, Jb, out, fast_out=None, g2s=None):
     """The property's identities evaluated on the implementation's outputs, exact Fractions + mpmath.
     Rb[i] = R_i, Jb[i] = J_i (d x p), out = (R', J') per block.  Returns [(key, text)]."""
     import mpmath as mp
@@ -538,6 +542,9 @@ def law_check(spec, cname, Rb, Jb, out, fast_out=None):
     xs = [sum(F(v) * F(v) for v in Rb[i]) for i in range(nb)]
     der = [true_rho(kind, p1, p2, xs[i]) for i in range(nb)]
     masked = [cname == 'Triggs' and xs[i] != 0 and der[i][2] > 0 for i in range(nb)]
+    # blocks on which the implementation took the masked branch (autograd's rho'' > 0) although the true
+    # rho'' is <= 0: happens with Tolerant, a/|b| >~ 37, where autograd's rho'' is rounding noise of either sign
+    spurious = [cname == 'Triggs' and not masked[i] and xs[i] != 0 and g2s is not None and g2s[i] > 0 for i in range(nb)]
     if any(not math.isfinite(v) for i in range(nb) for v in list(Rp[i]) + [e for row in Jp[i] for e in row]):
         if all(der[i][1] >= 0 for i in range(nb)) and all(der[i][1] > 0 for i in range(nb) if masked[i]):
             res.append(('%s.forward:non-finite' % cname, 'non-finite output for a kernel with non-negative slope'))
@@ -550,7 +557,7 @@ def law_check(spec, cname, Rb, Jb, out, fast_out=None):
         rhs = sum(der[i][1] * JtR[i][l] for i in range(nb))
         mag = sum(abs(der[i][1]) * absJtR[i][l] for i in range(nb)) + sum(abs(q(Jp[i][k][l]) * q(Rp[i][k])) for i in range(nb) for k in range(d))
         if abs(lhs - rhs) > LAW_TOL * mag + mp.mpf(10) ** -280:
-            key = K_TRIGGS_GRAD if any(masked) else '%s.forward:gradient' % cname
+            key = K_TRIGGS_GRAD if any(masked) or any(spurious) else '%s.forward:gradient' % cname
             res.append((key, "column %d: J'^T R' = %s but sum rho' J^T R = %s (%s, kernel %s)" % (l, mp.nstr(lhs, 12), mp.nstr(rhs, 12), cname, label)))
             break
     for l in range(p):
@@ -566,8 +573,10 @@ def law_check(spec, cname, Rb, Jb, out, fast_out=None):
                             % (l, m, mp.nstr(lhs, 12), 'Triggs' if any(masked) else 'Gauss-Newton', mp.nstr(rhs, 12), label)))
                 return res
     if cname == 'Triggs' and fast_out not in (None, 'raises') and fast_out[0] != 'raises':
+        def differs(a, b):
+            return any(abs(u - v) > 1e-12 * max(abs(u), abs(v)) for u, v in zip(a, b))
         for i in range(nb):
-            if not masked[i] and (Rp[i] != fast_out[0][i] or Jp[i] != fast_out[1][i]):
+            if not masked[i] and not spurious[i] and (differs(Rp[i], fast_out[0][i]) or any(differs(r1, r2) for r1, r2 in zip(Jp[i], fast_out[1][i]))):
                 res.append(('Triggs.forward:unmasked-differs-from-FastTriggs', "block %d (rho'' <= 0 or R = 0): Triggs returns %s, FastTriggs %s" % (i, Rp[i], fast_out[0][i])))
                 break
     return res
@@ -583,8 +592,10 @@ def corrector_tensor(ctx, pp, torch, spec, Rb, Jb, batch, cases, meta):
     xs, g1s, g2s = grads_of(pp, torch, spec, Rt)
     base = dict(kind='corrector', spec=list(spec), R=Rb, J=Jb, batch=list(batch))
     # oracle hypothesis: autograd's g1, g2 are the true derivatives
+    true2 = []
     for i in range(nb):
         r, r1, r2 = true_rho(kind, p1, p2, F(xs[i]))
+        true2.append(r2)
         thr = kind == 0 and F(xs[i]) == F(p1) ** 2
         t1 = t2 = 0.0
         if not isinstance(kind, str) and math.isfinite(g1s[i]):
@@ -620,7 +631,7 @@ def corrector_tensor(ctx, pp, torch, spec, Rb, Jb, batch, cases, meta):
             finite = all(math.isfinite(v) for v in flat)
             x = sum(F(v) * F(v) for v in Rb[i])
             masked = cname == 'Triggs' and x != 0 and g2 > 0
-            br = '%s:%s' % (cname, 'none' if not finite else 'masked' if masked else 'zero-residual' if x == 0 else 'unmasked')
+            br = '%s:%s' % (cname, 'none' if not finite else ('masked' if true2[i] > 0 else 'masked-by-rounding-noise') if masked else 'zero-residual' if x == 0 else 'unmasked')
             idx = len(meta)
             ctx.case(('corr', cname, label, p1, p2, tuple(Rb[i]), repr(Jb[i])), nontrivial=x != 0, branch=br + ':d=%d' % d,
                      sample=dict(corrector=cname, kernel=label, p1=p1, p2=p2, R_i=Rb[i], J_i=Jb[i], g1=g1, g2=g2, R_out=Rp[i], J_out=Jp[i]) if idx % 41 == 9 else None)
@@ -642,8 +653,8 @@ def corrector_tensor(ctx, pp, torch, spec, Rb, Jb, batch, cases, meta):
     for cname in ('FastTriggs', 'Triggs'):
         if outs[cname][0] == 'raises':
             continue
-        for key, text in law_check(spec, cname, Rb, Jb, outs[cname], outs['FastTriggs']):
-            ctx.violation(key, text, dict(base, corrector=cname))
+        for key, text in law_check(spec, cname, Rb, Jb, outs[cname], outs['FastTriggs'], g2s):
+            ctx.violation(key, text, dict(base, corrector=cname, key=key))
 
 
 def run_correctors(ctx, pp, torch):
@@ -661,9 +672,10 @@ def run_correctors(ctx, pp, torch):
     plan.append(('Shift', 2, 2, (3,), ['two', 'big', 'zero']))                   # rho' = 0 on a masked block
     plan.append(('Huber', 6, 2, (3,), ['axis', 'small', 'big']))                 # exactly at the threshold
     plan.append(('Huber', 1, 1, (2,), ['axis', 'zero']))
+    plan.append(('Tolerant45', 2, 1, (6,), ['small', 'small', 'gauss', 'gauss', 'dyadic', 'zero']))   # autograd rho'' = noise of either sign
     for j, name in enumerate(KNAMES):
-        plan.append((name, 1 + (j % 6), 1 + (j % 3), (2,), ['gauss', 'zero']))
-    nrand = ctx.scale(8, 300)
+        plan.append((name, 1 + (j % 6), 1 + (j % 3), (2,) if j < 3 else (1,), ['gauss', 'zero'] if j < 3 else ['gauss']))
+    nrand = ctx.scale(6, 300)
     pool = KNAMES + ['Sq', 'Sq', 'P25', 'P25', 'Id', 'S1', 'L1']
     for _ in range(nrand):
         d = rng.randint(1, 6)
@@ -680,7 +692,7 @@ def run_correctors(ctx, pp, torch):
         Jb = [[[dy(rng, 3, 4) if rng.random() < 0.5 else rng.gauss(0, 2) for _ in range(p)] for _ in range(d)] for _ in kinds]
         corrector_tensor(ctx, pp, torch, spec, Rb, Jb, batch, cases, meta)
     def coq():
-        return run_enclosure_shared('C09', 'Model.Kernel', cases, prec=200, per_file=max(4, -(-len(cases) // max(1, NCPU // 2))), timeout_goal=60)
+        return run_enclosure_shared('C09', 'Model.Kernel', cases, prec=200, per_file=min(30, max(4, -(-len(cases) // max(1, NCPU // 2)))), timeout_goal=60)
 
     def done(r):
         collect(ctx, r, cases, meta, 'corrector-enclosure')
@@ -712,20 +724,21 @@ def replay(ctx, c):
         Rt = torch.tensor(Rb, dtype=torch.float64).reshape(tuple(c['batch']) + (d,))
         Jt = torch.tensor(Jb, dtype=torch.float64).reshape(len(Rb) * d, p)
         bad = []
+        g2s = grads_of(pp, torch, spec, Rt)[2]
         fast = run_corrector(pp, torch, spec, 'FastTriggs', Rt, Jt)
         for cname in ([c['corrector']] if c.get('corrector') else ['FastTriggs', 'Triggs']):
             out = fast if cname == 'FastTriggs' else run_corrector(pp, torch, spec, cname, Rt, Jt)
             if out[0] == 'raises':
                 bad.append('%s raised: %s' % (cname, out[1]))
-            else:
-                bad += [t for _, t in law_check(spec, cname, Rb, Jb, out, fast)]
+            else:                     # a replay names one clause (key): other, separately recorded, failures do not count
+                bad += [t for k, t in law_check(spec, cname, Rb, Jb, out, fast, g2s) if c.get('key') in (None, k)]
         return '; '.join(bad) if bad else None
     return None
 
 
 KNOWN_WITNESS = {
     K_SCALE_NEG: dict(kind='kernel-neg', kid=6, p1=0.5, p2=0.0, x=-1.0),
-    K_TRIGGS_GRAD: dict(kind='corrector', corrector='Triggs', spec=['Sq', 'Sq', 0.0, 0.0, True], R=[[2.0]], J=[[[1.0]]], batch=[1]),
+    K_TRIGGS_GRAD: dict(kind='corrector', corrector='Triggs', key=K_TRIGGS_GRAD, spec=['Sq', 'Sq', 0.0, 0.0, True], R=[[2.0]], J=[[[1.0]]], batch=[1]),
     K_TRIGGS_RAISE: dict(kind='corrector', corrector='Triggs', spec=['Scale', 6, 0.5, 0.0, False], R=[[1.0, 2.0]], J=[[[1.0], [3.0]]], batch=[1]),
 }
 
@@ -756,7 +769,7 @@ def search(ctx, pp, torch):
             Jt = torch.tensor(Jb, dtype=torch.float64).reshape(len(Rb) * d, p)
             out = run_corrector(pp, torch, spec, c['corrector'], Rt, Jt)
             fast = run_corrector(pp, torch, spec, 'FastTriggs', Rt, Jt)
-            keys = ['%s.forward:raises' % c['corrector']] if out[0] == 'raises' else [k for k, _ in law_check(spec, c['corrector'], Rb, Jb, out, fast)]
+            keys = ['%s.forward:raises' % c['corrector']] if out[0] == 'raises' else [k for k, _ in law_check(spec, c['corrector'], Rb, Jb, out, fast, grads_of(pp, torch, spec, Rt)[2])]
             keys = [k for k in keys if k not in ctx.known] or keys
             key = keys[0] if keys else '%s.forward' % c['corrector']
         if key in ctx.known:
